@@ -5,6 +5,7 @@ import (
 	"crypto"
 	"crypto/rsa"
 	"crypto/sha512"
+	"fmt"
 
 	"github.com/cloudflare/circl/oprf"
 	"github.com/cloudflare/pat-go/tokens"
@@ -288,6 +289,95 @@ func c01Type3(c *h.Ctx, chalLens []int, nameLens []int) {
 	}
 }
 
+// c01InFlight: several honest runs in flight at ONE issuer object — all requests evaluated first, the responses (the
+// slices the issuer returned, not copies) finalized afterwards, in order and in reverse: every run must still complete.
+func c01InFlight(c *h.Ctx) {
+	const n = 3
+	chal := rnd(c, 20)
+	// type 1
+	sk1, _ := oprf.DeriveKey(oprf.SuiteP384, oprf.VerifiableMode, rnd(c, 32), nil)
+	iss1 := type1.NewBasicPrivateIssuer(sk1)
+	// type 2
+	key2 := rsaKey(0)
+	iss2 := type2.NewBasicPublicIssuer(key2)
+	// type 5
+	sk5, _ := oprf.DeriveKey(oprf.SuiteRistretto255, oprf.VerifiableMode, rnd(c, 32), nil)
+	iss5 := type5.NewBatchedPrivateIssuer(sk5)
+	// type 3
+	env := newT3(c, 1, rnd(c, 32), map[string][]byte{"origin.example": rnd(c, 48)})
+	type run struct {
+		ty    uint16
+		nonce []byte
+		fin   func([]byte) ([]tokens.Token, error)
+		resp  []byte
+		kid   []byte
+		nk    int
+	}
+	for order := 0; order < 2; order++ {
+		var runs []*run
+		for i := 0; i < n; i++ {
+			nonce := rnd(c, 32)
+			if st, err := type1.NewBasicPrivateClient().CreateTokenRequest(chal, nonce, iss1.TokenKeyID(), iss1.TokenKey()); err == nil {
+				dec := new(type1.BasicPrivateTokenRequest)
+				if dec.Unmarshal(st.Request().Marshal()) {
+					if resp, err := iss1.Evaluate(dec); err == nil {
+						runs = append(runs, &run{1, nonce, func(b []byte) ([]tokens.Token, error) { t, e := st.FinalizeToken(b); return []tokens.Token{t}, e }, resp, iss1.TokenKeyID(), 48})
+					}
+				}
+			}
+			nonce2 := rnd(c, 32)
+			if st, err := type2.NewBasicPublicClient().CreateTokenRequest(chal, nonce2, iss2.TokenKeyID(), &key2.PublicKey); err == nil {
+				dec := new(type2.BasicPublicTokenRequest)
+				if dec.Unmarshal(st.Request().Marshal()) {
+					if resp, err := iss2.Evaluate(dec); err == nil {
+						runs = append(runs, &run{2, nonce2, func(b []byte) ([]tokens.Token, error) { t, e := st.FinalizeToken(b); return []tokens.Token{t}, e }, resp, iss2.TokenKeyID(), 256})
+					}
+				}
+			}
+			nonce5 := rnd(c, 32)
+			if st, err := type5.NewBatchedPrivateClient().CreateTokenRequest(chal, [][]byte{nonce5}, iss5.TokenKeyID(), iss5.TokenKey()); err == nil {
+				dec := new(type5.BatchedPrivateTokenRequest)
+				if dec.Unmarshal(st.Request().Marshal()) {
+					if resp, err := iss5.Evaluate(dec); err == nil {
+						runs = append(runs, &run{5, nonce5, func(b []byte) ([]tokens.Token, error) { return st.FinalizeTokens(b) }, resp, iss5.TokenKeyID(), 64})
+					}
+				}
+			}
+			nonce3 := rnd(c, 32)
+			client := type3.NewRateLimitedClientFromSecret(rnd(c, 48))
+			if st, err := env.request(client, chal, nonce3, rnd(c, 48), "origin.example"); err == nil {
+				if resp, _, err := env.issuer.Evaluate(st.Request().Marshal()); err == nil {
+					runs = append(runs, &run{3, nonce3, func(b []byte) ([]tokens.Token, error) { t, e := st.FinalizeToken(b); return []tokens.Token{t}, e }, resp, env.tokenKeyID, 256})
+				}
+			}
+		}
+		if len(runs) != 4*n {
+			c.Violation("an honest request is refused while several are in flight at one issuer", map[string]any{"served": len(runs), "of": 4 * n})
+		}
+		idx := make([]int, len(runs))
+		for i := range idx {
+			idx[i] = i
+			if order == 1 {
+				idx[i] = len(runs) - 1 - i
+			}
+		}
+		for _, i := range idx {
+			r := runs[i]
+			toks, err := r.fin(r.resp)
+			det := map[string]any{"type": r.ty, "runs_in_flight": len(runs), "position": i, "finalized_in_reverse": order == 1}
+			c.Count(fmt.Sprintf("type%d:in-flight", r.ty), 1, fmt.Sprint(order, i))
+			if err != nil || len(toks) != 1 {
+				if err != nil {
+					det["err"] = err.Error()
+				}
+				c.Violation("an honest run fails to complete when other honest runs are in flight at the same issuer (responses evaluated before earlier ones are finalized)", det)
+				continue
+			}
+			c01Token(c, fmt.Sprintf("type%d:wire-run:in-flight", r.ty), r.ty, r.nonce, chal, r.kid, r.nk, toks[0], det)
+		}
+	}
+}
+
 func runC01(c0 *h.Ctx) {
 	chalLens := []int{0, 1, 31, 32, 33, 255, 4096}
 	c0.Parallel(4, func(part int, c *h.Ctx) {
@@ -328,6 +418,7 @@ func runC01(c0 *h.Ctx) {
 				nameLens = append(nameLens, 255, 256, 257, 1024, 4096)
 			}
 			c01Type3(c, chalLens, nameLens)
+			c01InFlight(c)
 		}
 	})
 }
